@@ -1,4 +1,6 @@
 mod cases2;
+mod cli;
+mod compile;
 mod debugparse;
 mod dom;
 mod driver;
